@@ -1643,7 +1643,7 @@ impl Property for C04 {
     type Scenario = Scenario;
 
     fn rule() -> String {
-        "seeded workloads of 4-6 hosts: victim v0 (optionally v1, selected together by regex) in 1-3 of the phases {listening with k queued un-accepted connection requests, reading from a peer slowly/eagerly (with/without unread data), writing to a peer that reads eagerly/slowly, idle established streams, background tasks via tokio::spawn / spawn_local nested 1-3 deep (some holding sockets), UDP receiver with multicast membership and optional connected filter plus a UDP sender, fs work through the std shim, io_uring writes}; 1-2 peers running the counterpart programs; an uninvolved pair u0<->u1 (TCP stream, UDP datagrams, fs, timers); fixed latency 0-4 ticks, tcp_capacity 1-64, IPv4/IPv6. Fault enumeration: for each seeded workload Sim::crash is injected before EVERY step index of the workload, followed by bounce after k in {0,1,2,7} steps / never / 1-3 crash-bounce cycles, or bounce without crash. Oracle after crash returns: all task guards of the victim dropped, hook table counts (udp binds, tcp binds, streams, memberships) zero, is_host_running false, activity and send counters frozen until bounce, every peer read / blocked write / backlog-queued connect pending on the victim completes within ceil(latency/tick)+2 steps, bounce calls the factory exactly once and leaves only the new main guard alive, new incarnations bind the same fixed TCP/UDP ports, datagrams and connection requests that reached the host while down are never handed to a new incarnation, and the logs (with virtual timestamps, fs observations, timers) of u0/u1 equal those of the crash-free twin run. Non-trivial: the crash landed while >=1 peer operation was pending on the victim; distinct = digest of (event kinds, crash step, pattern). Added later: u1 shares the victim's multicast group; readiness-style writers (writable + try_write) and peek-before-read peers; the victim connected to itself; an uninvolved host bounced (without crash) while the victim is down, in run and twin alike; the victim splits a stream, drops or hands away the write half and sits on unread data; the first uninvolved host registered only after some steps; odd incarnations of a ring-writing victim hold an O_DIRECT descriptor and every ring write of a restarted incarnation must complete with its length.".into()
+        "seeded workloads of 4-6 hosts: victim v0 (optionally v1, selected together by regex) in 1-3 of the phases {listening with k queued un-accepted connection requests, reading from a peer slowly/eagerly (with/without unread data), writing to a peer that reads eagerly/slowly, idle established streams, background tasks via tokio::spawn / spawn_local nested 1-3 deep (some holding sockets), UDP receiver with multicast membership and optional connected filter plus a UDP sender, fs work through the std shim, io_uring writes}; 1-2 peers running the counterpart programs; an uninvolved pair u0<->u1 (TCP stream, UDP datagrams, fs, timers); fixed latency 0-4 ticks, tcp_capacity 1-64, IPv4/IPv6. Fault enumeration: for each seeded workload Sim::crash is injected before EVERY step index of the workload, followed by bounce after k in {0,1,2,7} steps / never / 1-3 crash-bounce cycles, or bounce without crash. Oracle after crash returns: all task guards of the victim dropped, hook table counts (udp binds, tcp binds, streams, memberships) zero, is_host_running false, activity and send counters frozen until bounce, every peer read / blocked write / backlog-queued connect pending on the victim completes within ceil(latency/tick)+2 steps, bounce calls the factory exactly once and leaves only the new main guard alive, new incarnations bind the same fixed TCP/UDP ports, datagrams and connection requests that reached the host while down are never handed to a new incarnation, and the logs (with virtual timestamps, fs observations, timers) of u0/u1 equal those of the crash-free twin run. Non-trivial: the crash landed while >=1 peer operation was pending on the victim; distinct = digest of (event kinds, crash step, pattern). Added later: u1 shares the victim's multicast group; readiness-style writers (writable + try_write) and peek-before-read peers; the victim connected to itself; an uninvolved host bounced (without crash) while the victim is down, in run and twin alike; the victim splits a stream, drops or hands away the write half and sits on unread data; the first uninvolved host registered only after some steps; odd incarnations of a ring-writing victim hold an O_DIRECT descriptor and every ring write of a restarted incarnation must complete with its length. Round 11: host factories that spawn a task and create a timer before returning the main future; a listener that starts accepting late (requests of dead incarnations still queued); after every step no running host's stream table holds more entries than its software owns stream objects and pending connects.".into()
     }
     fn components_real() -> Vec<&'static str> {
         vec!["turmoil: Sim::crash/bounce/step/is_host_running, Rt::crash/bounce/cancel_tasks, TcpListener/TcpStream/UdpSocket Drop paths, host tables, multicast table, Topology delivery to stopped hosts, turmoil::fs std shim and io_uring inside a Sim", "hook verif_host_table_counts (read-only)"]
